@@ -261,7 +261,7 @@ func fRun(t *testing.T, r *sim.Run, tier string) {
 
 var c01FilterEngine = &sim.Engine{
 	Prop: "C01", Level: "exploration",
-	Rule:        "lane benchfilter-main: 1-3 generated input files (keys present in one file and absent in the next, duplicate and labelled paths) through the real cmd/benchfilter main() in-process; the output is read back and compared record by record with what benchfmt.Files yields for the inputs",
+	Rule:        "lane benchfilter-main: 1-3 generated input files (keys present in one file and absent in the next, duplicate and labelled paths) through the real cmd/benchfilter main() in-process under one of ten filter expressions (match-all, or dropping whole results or single measurements); the output is read back and compared record by record with what benchfmt.Files yields for the inputs",
 	Real:        []string{"cmd/benchfilter main()", "benchfmt.Files", "benchfmt.Writer", "benchfmt.Reader", "benchproc.Filter"},
 	Stub:        []string{"os.Args / os.Stdout redirection"},
 	Run:         fRun,
